@@ -1,54 +1,73 @@
 """Exhaustive decision table of CsvPath._consider_line by abstract interpretation
 (shared by C01.R4, C02.R4, C03.R2, C13.R2/R3, C15.R3).
 
-Abstract world: blank-last-line test, skip_blank_lines, len(line)==0, scanner.includes,
-advance_count ∈ {0,1,2}, the match verdict ∈ {True, False, None}, scanner.is_last,
-collect_when_not_matched.  Effects observed: stores to scan_count / advance_count /
-_current_match_count / _freeze_path, calls of matches / stop / raise_match_count_if, return value.
+Abstract world (enumerated eagerly, so that a path which fails to consult an input is still judged for both
+of its values): blank-last-line test, skip_blank_lines, blank record, scanner.includes, advance_count ∈ {0,1,2},
+the match verdict ∈ {True, False, None}, scanner.is_last, collect_when_not_matched.
+Effects observed: stores to scan_count / advance_count / _current_match_count / _freeze_path, calls of
+matches / stop / raise_match_count_if, return value.
 """
-from sa.absint import Interp, Obj, Residual
+import itertools
 
-BLANK_LAST = "self.line_monitor.is_last_line_and_blank(line)"
-INCLUDES = "self.scanner.includes(self.line_monitor.physical_line_number)"
-IS_LAST = "self.scanner.is_last(self.line_monitor.physical_line_number)"
+from sa.absint import Interp, Obj, Residual
+from sa.index import AnalysisError
+
+BLANK_LAST = "blank_last"
+INCLUDES = "includes"
+IS_LAST = "is_last"
 
 
 def rows(idx):
     fi = idx.method("CsvPath", "_consider_line")
-
-    def h_matches(interp, call, recv, args, kwargs):
-        interp.record_call("matches", None)
-        return interp.choose("matches()", [True, False, None], memo=False)
-
-    def rec(name):
-        def h(interp, call, recv, args, kwargs):
-            interp.record_call(name, None)
-        return h
-
     out = []
-    for adv in (0, 1, 2):
+    for blank_last, skip_blank, empty, includes, is_last, cwnm, adv, vote in itertools.product(
+            (False, True), (True, False), (False, True), (True, False), (False, True), (False, True), (0, 1, 2), (True, False, None)):
+        if blank_last and not empty:
+            continue  # a blank last line is blank
+        cfg = dict(blank_last=blank_last, skip_blank=skip_blank, empty=empty, includes=includes, is_last=is_last, cwnm=cwnm, adv=adv, vote=vote)
+
+        def h_matches(interp, call, recv, args, kwargs, vote=vote):
+            interp.record_call("matches", None)
+            return vote
+
+        def rec(name):
+            def h(interp, call, recv, args, kwargs):
+                interp.record_call(name, None)
+            return h
+
+        def const(name, v):
+            def h(interp, call, recv, args, kwargs):
+                interp.record_call("consult:" + name)
+                return v
+            return h
+
         it = Interp(idx, types={"self": "CsvPath"},
-                    domains={BLANK_LAST: [False, True], "self.skip_blank_lines": [True, False], INCLUDES: [True, False],
-                             IS_LAST: [False, True], "self.collect_when_not_matched": [False, True]},
-                    handlers={"self.matches": h_matches, "self.stop": rec("stop"), "self.raise_match_count_if": rec("raise_match_count_if")})
-        store = {"self.advance_count": adv, "self.scan_count": 5, "self.match_count": 3, "self._current_match_count": 0}
-        for p in it.run_all(fi, args={"line": Residual("line")}, store=store):
-            out.append((adv, p))
+                    handlers={"self.matches": h_matches, "self.stop": rec("stop"), "self.raise_match_count_if": rec("raise_match_count_if"),
+                              "self.line_monitor.is_last_line_and_blank": const("blank_last", blank_last),
+                              "self.scanner.includes": const("includes", includes), "self.scanner.is_last": const("is_last", is_last)})
+        store = {"self.advance_count": adv, "self.scan_count": 5, "self.match_count": 3, "self._current_match_count": 0,
+                 "self.skip_blank_lines": skip_blank, "self.collect_when_not_matched": cwnm}
+        line = [] if empty else ["x", "y"]
+        ps = it.run_all(fi, args={"line": line}, store=store)
+        if len(ps) != 1:
+            raise AnalysisError(f"_consider_line depends on something outside the model: {ps[0].summary()['choices']}")
+        ps[0].cfg = cfg
+        out.append((adv, ps[0]))
     return fi, out
 
 
 def facts(adv, p):
     """normalised observation of one path"""
-    blank = p.atom("len(line) == 0")
+    c = p.cfg
     d = dict(
         adv=adv,
-        blank_last=p.atom(BLANK_LAST),
-        skip_blank=p.atom("self.skip_blank_lines"),
-        empty=blank,
-        includes=p.atom(INCLUDES),
-        is_last=p.atom(IS_LAST),
-        cwnm=p.atom("self.collect_when_not_matched"),
-        vote=p.atom("matches()", "not-called"),
+        blank_last=c["blank_last"],
+        skip_blank=c["skip_blank"],
+        empty=c["empty"],
+        includes=c["includes"],
+        is_last=c["is_last"],
+        cwnm=c["cwnm"],
+        vote=c["vote"] if p.calls("matches") else "not-called",
         n_matches=len(p.calls("matches")),
         n_stop=len(p.calls("stop")),
         n_raise=len(p.calls("raise_match_count_if")),
@@ -57,6 +76,6 @@ def facts(adv, p):
         cmc_sets=p.sets("self._current_match_count"),
         freeze_sets=p.sets("self._freeze_path"),
         result=p.result,
-        order=[(k, kk) for k, kk, v in p.trace if k in ("call", "set")],
+        order=[(k, kk) for k, kk, v in p.trace if k in ("call", "set") and not kk.startswith("consult:")],
     )
     return d
